@@ -613,6 +613,9 @@ def find_intercepts(extreme_points, best_point, current_worst, front_worst):
                     numpy.any(intercepts <= 1e-6) or
                     numpy.any((intercepts + best_point) > current_worst)):
                 intercepts = front_worst
+            else:
+                # The hyperplane intercepts are measured from the ideal point
+                intercepts = intercepts + best_point
 
     return intercepts
 
